@@ -154,10 +154,70 @@ fn wide_trees() -> Vec<Tree> {
     out
 }
 
+/// The same set of globs given through a pattern file (one per line, with a blank line in between)
+/// instead of as strings decides every path the same way.
+fn route_check(sets: &[Vec<String>]) -> (u64, Vec<(Violation, Value)>) {
+    let mut out = Vec::new();
+    use conserve::Exclude;
+    let scratch = Scratch::new("c15route");
+    let dir = scratch.fresh("pf");
+    std::fs::create_dir_all(&dir).unwrap();
+    let mut probes: Vec<String> = vec!["/".into()];
+    for a in NAMES {
+        probes.push(format!("/{a}"));
+        for b in NAMES {
+            probes.push(format!("/{a}/{b}"));
+            for c in NAMES {
+                probes.push(format!("/{a}/{b}/{c}"));
+            }
+        }
+    }
+    let mut n = 0;
+    for (i, set) in sets.iter().enumerate() {
+        if set.is_empty() {
+            continue;
+        }
+        let file = dir.join(format!("patterns{i}"));
+        let (as_strings, in_file) = set.split_at(set.len() / 2);
+        std::fs::write(&file, format!("{}\n\n", in_file.join("\n\n"))).unwrap();
+        let direct = Exclude::from_strings(set.iter());
+        let routed = Exclude::from_patterns_and_files(as_strings.iter(), [file.as_path()]);
+        n += 1;
+        match (direct, routed) {
+            (Ok(d), Ok(r)) => {
+                let differing: Vec<&String> = probes.iter().filter(|p| d.matches(p.as_str()) != r.matches(p.as_str())).collect();
+                if !differing.is_empty() {
+                    out.push((
+                        Violation::new(
+                            "C15:patterns-read-from-a-file-decide-differently",
+                            format!("exclude {set:?}: with {in_file:?} read from a file (one per line, blank lines between) {} of {} probe paths are decided differently, e.g. {:?}", differing.len(), probes.len(), differing[0]),
+                        ),
+                        json!({"kind": "c15-route", "exclude": set}),
+                    ));
+                }
+            }
+            (d, r) => {
+                if d.is_ok() != r.is_ok() {
+                    out.push((
+                        Violation::new("C15:patterns-read-from-a-file-decide-differently", format!("exclude {set:?}: accepted as strings: {}, from a file: {}", d.is_ok(), r.is_ok())),
+                        json!({"kind": "c15-route", "exclude": set}),
+                    ));
+                }
+            }
+        }
+    }
+    (n, out)
+}
+
 pub fn run(report: &Report, budget: &Budget) {
     let thorough = report.thorough();
     let shapes = gen::shapes(&NAMES, &[K::Dir, K::File], if thorough { 4 } else { 3 }, 3);
     let sets = pattern_sets();
+    let (n_routed, route_violations) = route_check(&sets);
+    for (v, c) in &route_violations {
+        report.violation(v, c);
+    }
+    report.set("pattern_sets_also_given_through_a_file", json!(n_routed));
     let scratches: Vec<Scratch> = (0..crate::util::n_workers()).map(|_| Scratch::new("c15")).collect();
     let n = AtomicU64::new(0);
     // wide trees x hunk sizes first
@@ -197,6 +257,11 @@ pub fn run(report: &Report, budget: &Budget) {
 }
 
 pub fn replay(case: &Value) -> Vec<Violation> {
+    if case["kind"] == json!("c15-route") {
+        // re-run the route check for this one set
+        let set: Vec<String> = case["exclude"].as_array().unwrap().iter().map(|s| s.as_str().unwrap().to_string()).collect();
+        return route_check(&[set]).1.into_iter().map(|(v, _)| v).collect();
+    }
     let t = tree::tree_from_json(&case["tree"]).unwrap();
     let set: Vec<String> = case["exclude"].as_array().unwrap().iter().map(|s| s.as_str().unwrap().to_string()).collect();
     let scratch = Scratch::new("replay");
